@@ -4,6 +4,7 @@
 (* An opened object (a filesystem or a disk) is in mode ro or rw.  ro is reached by    *)
 (* several routes: a backend created read-only (file.New(f, true)), a backend whose    *)
 (* Writable() fails, a path opened read-only (diskfs.Open(ReadOnly), OpenFromPath),    *)
+(* a read-only backend over a file descriptor that is itself writable (rofile),        *)
 (* and - whatever the backend - a finalized ISO9660 / squashfs filesystem.  The state  *)
 (* of the world is the image (a version counter: it moves only when a byte changes)    *)
 (* and the view the live object gives of it (a second counter).  Mutating entry points *)
@@ -15,13 +16,15 @@ EXTENDS Integers, Sequences, FiniteSets, TLC
 FsMut  == {"Mkdir", "Create", "OpenRW", "OpenAppend", "OpenTrunc", "WriteOnROHandle", "Rename", "Remove",
            "SetLabel", "Chmod", "Chown", "Chtimes", "Symlink"}
 FsRead == {"ReadDirRoot", "ReadDirSub", "Stat", "ReadFile", "ReadLink", "Label"}
-DkMut  == {"Partition", "WritePartitionContents", "CreateFilesystem"}
+DkMut  == {"Partition", "WritePartitionContents", "CreateFilesystem", "CreateExt4", "CreateFat16"}   \* CreateFilesystem: FAT32
 DkRead == {"GetPartitionTable", "ReadPartitionContents", "GetFilesystemAndList"}
 FsObjs == {"fat12", "fat16", "fat32", "ext4", "iso", "squashfs"}
 \* gptbad: the primary GPT array fails its CRC, the backup is intact (reads must not "repair" it)
-DkObjs == {"gpt", "mbr", "gptbad"}
+\* mbrshort: the image is shorter than the table says (partition 2 reaches past its end): nothing may grow it
+DkObjs == {"gpt", "mbr", "gptbad", "mbrshort"}
 Objs   == FsObjs \cup DkObjs
-Routes == {"robackend", "nowritable", "ropath", "rw"}
+\* rofile: file.New(f, true) over a real *os.File whose descriptor WOULD allow writing (Sys() hands it out)
+Routes == {"robackend", "nowritable", "ropath", "rofile", "rw"}
 \* a finalized image is read-only on every route, "rw" included
 IsRO(o, r) == r # "rw" \/ o \in {"iso", "squashfs"}
 Muts(o)  == IF o \in FsObjs THEN FsMut ELSE DkMut
